@@ -181,6 +181,10 @@ func main() {
 		runC06(w, *seed, *maxLen, *n)
 		return
 	}
+	if *mode == "c02" {
+		runC02(w, *seed, *n, *depth, *stride)
+		return
+	}
 	if *mode == "c05" {
 		runC05(w, *seed, *n, *depth)
 		return
